@@ -8,7 +8,7 @@ an independent projection of the emit flags, no state change after a row of the
 same time, and the emit_step subset law by differential runs."""
 import copy
 
-from vmon.util import Viol, flat
+from vmon.util import Viol, flat, prune
 
 ID = 'C12'
 LEVEL = 'exploration'
@@ -298,7 +298,8 @@ def run(spec):
             emitted_at.add(ev[2])
             snap = ev[4]
             exp = expected_row(spec, snap, fl)
-            V.check('row_content', _eq(ev[3], exp),
+            # branches without emitted variables carry no information: {} and absence are the same row
+            V.check('row_content', _eq(prune(ev[3]), prune(exp)),
                     lambda: ('row at t=%r differs from the emit-flagged projection of the hierarchy' % ev[2],
                              _diff(ev[3], exp)))
             if prev_snap is not None and not _eq(prev_snap[1], snap):
@@ -338,7 +339,7 @@ def run(spec):
         tk = [ev[2] for ev in hk]
         V.check('emit_step_no_duplicates', len(tk) == len(set(tk)) and all(b > a for a, b in zip(tk, tk[1:])),
                 lambda: ('emit_step=%r delivers several rows for one time' % k, tk[:20]))
-        bad = [ev[2] for ev in hk if ev[2] not in rows1 or not _eq(rows1[ev[2]], ev[3])]
+        bad = [ev[2] for ev in hk if ev[2] not in rows1 or not _eq(prune(rows1[ev[2]]), prune(ev[3]))]
         V.check('emit_step_subset', not bad and (not hk or hk[0][2] == spec['t0']),
                 lambda: ('emit_step=%r rows are not a subset of the emit_step=1 rows with equal content' % k, bad[:6]))
         total = sum(c[0] for c in spec['calls'])
